@@ -684,9 +684,9 @@ class VKeyword(VNode):
         self.key = key
         self.value = value
 
-    def __eq__(self, other):  # pragma: no cover
+    def __eq__(self, other):
         return (
-            isinstance(other, VCall)
+            isinstance(other, VKeyword)
             and self.key == other.key
             and self.value == other.value
         )
